@@ -33,7 +33,7 @@ def gen(rng, i, tier):
 
 def gen_(rng, i, tier):
     r = rng.random()
-    if r < 0.45:
+    if r < 0.38:
         fn = rng.randrange(4)
         spin_in = fn in (1, 3)
         quad = fn in (2, 3)
